@@ -141,10 +141,12 @@ def handler_qtt(st, opts):
     import torchtt as tt
     N = [int(n) for n in st["N"]]
     q = [int(v) for v in st["q"]]
+    b = int(st.get("ms", 2))
+    mkw = {} if b == 2 else {"mode_size": b}
     seed = opts.get("seed", 0)
     gen = torch.Generator().manual_seed(5 + seed + sum(N))
     problems, stats = [], {"behaviours": 1, "nontrivial": 1 if len(q) > len(N) else 0}
-    key = {"op": "to_qtt", "d": len(N)}
+    key = {"op": "to_qtt", "d": len(N), "mode_size": b}
 
     def P(cls, msg, op="to_qtt"):
         kk = dict(key); kk["cls"] = cls; kk["op"] = op
@@ -157,7 +159,7 @@ def handler_qtt(st, opts):
             stats["calls"] = stats.get("calls", 0) + 1
             snap = algrun.snapshot([x])
             try:
-                y = x.to_qtt() if eps is None else x.to_qtt(eps)
+                y = x.to_qtt(**mkw) if eps is None else x.to_qtt(eps, **mkw)
             except Exception as ex:  # noqa
                 problems.append(P("exception", "raised %s: %s" % (type(ex).__name__, str(ex)[:160])))
                 continue
@@ -172,7 +174,7 @@ def handler_qtt(st, opts):
                 continue
             problems += compare(lambda c, m: P(c, m, "qtt_to_tens"), tt, z, "tt", N, [], dense, 1e-12 if eps is None else eps, dt, "round trip eps=%s" % eps)
     # square operators: to_qtt goes through reshape
-    if all(n in (2, 4) for n in N) and len(N) <= 2:
+    if b == 2 and all(n in (2, 4) for n in N) and len(N) <= 2:
         A = rand_tt(tt, [(n, n) for n in N], 2, gen, torch.float64)
         dense = project.dense(A.cores)
         L = [int(math.log2(n)) for n in N]
